@@ -119,6 +119,7 @@ ObsInv(e) ==
        new == Tags({ << ~o.pend \/ o.inv >= 1, "C07" >>,
                      << o.pend /\ (~o.hv \/ ~o.full), "C07" >>,
                      << o.pend /\ o.cls = "M", "C19" >>,
+                     << o.pend /\ o.cls = "M", "C07" >>,
                      << ~S!DispatchOK(hs, rs, e.seq, e.hid), "C08" >>,
                      << o.pend /\ o.full /\ o.hv /\ o.rej, "C07" >>,
                      << o.pend /\ o.full /\ o.hv /\
